@@ -186,6 +186,7 @@ class C12(Check):
         streams3 = list(seqs(pool, L3))
         out += [('v3', ch) for ch in chunked(streams3, 32)]
         out += [('reconf', i) for i in range(len(RECONF))]
+        out.append(('long',))
         return out
 
     def run_reconf(self, first, acc):
@@ -201,7 +202,19 @@ class C12(Check):
                                                'types': [[type(c[1]).__name__, type(c[2]).__name__] for c in cfgs],
                                                'first_traces': first_traces}, bad[1])
 
+    def run_long(self, acc):
+        stream = tuple((i * 7 + i // 5) % len(SYMS) for i in range(700))
+        for T, C, S in [(None, [], []), (1, [], []), (None, [4], []), (BIG, [3, 7], [0x40d]), (None, [], [0x40c, 0x140]), (2, (1,), ())]:
+            bad = judge('v2', stream, (), T, C, S, None)
+            acc.case(nontrivial=True, transitions=1, state=h64((T, repr(C), repr(S), 'long')))
+            for sig, detail in bad:
+                acc.violation(sig + ':700-record-stream', {'kind': 'v2', 'stream': list(stream), 'logs': [], 'tid': T, 'classes': list(C),
+                                                         'classes_type': type(C).__name__, 'subclasses': list(S),
+                                                         'subclasses_type': type(S).__name__, 'process': None}, detail)
+
     def run_shard(self, desc, acc):
+        if desc[0] == 'long':
+            return self.run_long(acc)
         if desc[0] == 'reconf':
             return self.run_reconf(desc[1], acc)
         kind, streams = desc
@@ -218,6 +231,8 @@ class C12(Check):
             logseqs = list(seqs(range(len(LOGS)), 2))
             for stream in streams:
                 for logs in logseqs:
+                    if self.tier == 'quick' and stream and len(logs) > 1:
+                        continue      # quick: two-record log sequences only with an empty event stream
                     for T in TID_FILTERS:
                         for P in PROC_FILTERS:
                             for C in CL3:
